@@ -206,6 +206,13 @@ func runC17(c *core.Ctx) {
 						c17Judge(c, f, a, b, true, lr, "literal "+la, "literal "+lb)
 					}
 				}
+				// operands that went through assign first are the same numbers (2.0 stays a float: dividing by it is real division)
+				if idx%5 == 1 {
+					ar := core.Run(e, "{% assign x = a %}{% assign y = b %}{% for i in (1..1) %}{% assign y2 = y %}{% endfor %}{{ x | "+f+": y2 }}", map[string]any{"a": ga, "b": gb})
+					c.Eval(1)
+					c.Obs("assigned_operand_cases", 1)
+					c17Judge(c, f, a, b, true, ar, "assigned "+gen.Describe(ga), "assigned (twice) "+gen.Describe(gb))
+				}
 			}
 		}
 		// ---- round with places ----
